@@ -68,13 +68,13 @@ Proof.
   apply while_count_bind with (n := n) (k := 1%nat)
     (Inv := fun k '(index, i) => i = Z.of_nat k /\ (1 <= k <= n)%nat /\ exists ix : nat, index = Z.of_nat ix /\
        Div.last_digit_index_from 1 r 0 = Div.last_digit_index_from k (skipn k (d :: r)) ix).
-  - intros k [index i] (-> & Hk & ix & -> & Heq) Hc. rewrite ltb_of_nat in Hc. apply Nat.ltb_lt in Hc.
+  - intros k [index i] (-> & Hk & ix & -> & Heq) Hc. cond_true_in Hc.
     split; [exact Hc|]. rewrite arr_get_nat by (cbn [length]; lia). cbn [bind].
     rewrite (skipn_nth_cons (d :: r) k) in Heq by (cbn [length]; lia). cbn [Div.last_digit_index_from] in Heq.
     destruct (nth k (d :: r) 0 =? 0); cbn [negb].
     + split; [lia|]. split; [lia|]. exists ix. split; [reflexivity | exact Heq].
     + split; [lia|]. split; [lia|]. exists k. split; [reflexivity | exact Heq].
-  - intros k [index i] (-> & Hk & ix & -> & Heq) Hc. rewrite ltb_of_nat in Hc. apply Nat.ltb_ge in Hc.
+  - intros k [index i] (-> & Hk & ix & -> & Heq) Hc. cond_false_in Hc.
     rewrite Heq. rewrite skipn_all2 by (cbn [length]; lia). reflexivity.
   - split; [reflexivity|]. split; [lia|]. exists 0%nat. split; reflexivity.
   - lia.
